@@ -205,6 +205,14 @@ let run_case (t : string list) : string =
        | Timeout.RequestTimeoutStatus t -> "status408 " ^ string_of_n t
        | Timeout.CallerTimeoutError t -> "callertimeout " ^ string_of_n t
        | Timeout.RaceUnspecified -> "unspecified")
+  | [ "trpcw"; od; id; hdr; w; h; d1; d2 ] ->
+      let o s = if s = "none" then None else Some (n_of_string s) in
+      let hv = if hdr = "none" then None else Timeout.parse_u64 (unhex hdr) in
+      (match Timeout.rpc_outcome_w (o od) (o id) hv (n_of_string w) (n_of_string h) (n_of_string d1) (n_of_string d2) with
+       | Timeout.Response t -> "response " ^ string_of_n t
+       | Timeout.RequestTimeoutStatus t -> "status408 " ^ string_of_n t
+       | Timeout.CallerTimeoutError t -> "callertimeout " ^ string_of_n t
+       | Timeout.RaceUnspecified -> "unspecified")
   | "authallow" :: csv :: _threads :: reqs ->
       let allow =
         if csv = "-" then []
@@ -974,6 +982,7 @@ let run_case (t : string list) : string =
               | [ "D"; a; b ] -> NetModel.Dial (n_of_string a, n_of_string b, None)
               | [ "D"; a; b; x ] -> NetModel.Dial (n_of_string a, n_of_string b, Some (n_of_string x))
               | [ "X"; a; b ] -> NetModel.Disconnect (n_of_string a, n_of_string b)
+              | [ "F"; a; b ] -> NetModel.FailedArrival (n_of_string a, n_of_string b)
               | [ "R"; a ] -> NetModel.Restart (n_of_string a)
               | [ "K"; a; p; aff ] ->
                   NetModel.SetKnown
